@@ -143,9 +143,21 @@ def run(ctx, rep, tier):
             tag = "%s:f%d" % ("limits" if with_limits else "opts", fi)
             if with_limits:
                 A = A + [limits_used]
+            if with_limits:
+                # RunOptions has no field for the depth limits, so they cannot be honoured: the statement then requires the
+                # whole input to be rejected with an error
+                accepted = b_or(*[g for g, v in r.alts if not isinstance(v, Panic) and is_ok(v)])
+                res, m = B.solve("%s:depth-limit-rejected" % tag, A, accepted)
+                if res == z3.sat:
+                    t = model_string(m, spec)
+                    d = B.ctx.run_native([t], "debug")[0]
+                    if d.get("parse") == "ok":
+                        rep.violation("options:depth-limit-dropped", "%r is accepted although the depth limit can be neither honoured nor reported: %s" % (t, d.get("opts")), dict(input=t))
+                    else:
+                        rep.inconclusive.append("witness %r does not reproduce" % t)
             for cname, bad in (("options-last-wins", bad_opts), ("tree-unchanged", b_and(bad_tree, b_not(panic))), ("no-global-node", has_global)):
-                if with_limits and cname == "options-last-wins":
-                    continue        # RunOptions has no field for the depth limits: honouring them is not observable there
+                if with_limits:
+                    continue
                 res, m = B.solve("%s:%s" % (tag, cname), A, bad)
                 if res == z3.sat:
                     report(B, rep, cname, model_string(m, spec), model_string(m, ref_chars))
